@@ -231,6 +231,39 @@ class MiniEval:
                     return r
             elif isinstance(st, (ast.FunctionDef,)):
                 env[st.name] = Closure(st, env, m)
+            elif isinstance(st, ast.For) and not st.orelse:
+                it = self.eval(st.iter, env, m)
+                if isinstance(it, tuple) and it and it[0] == "enum":
+                    it = self.enum_members(it[1])
+                if isinstance(it, Arr):
+                    it = it.tolist()
+                for x in list(it):
+                    self.assign(st.target, x, env)
+                    r = self.exec_body(st.body, env, m)
+                    if r is not None:
+                        return r
+            elif isinstance(st, ast.AugAssign) and isinstance(st.target, ast.Name):
+                cur = env.get(st.target.id)
+                v = self.eval(st.value, env, m)
+                if isinstance(cur, list) and isinstance(st.op, ast.Add):
+                    env[st.target.id] = cur + list(v)
+                else:
+                    self._num(cur)
+                    self._num(v)
+                    ops = {ast.Add: lambda: cur + v, ast.Sub: lambda: cur - v, ast.Mult: lambda: cur * v}
+                    if type(st.op) not in ops:
+                        raise Unsupported("augmented assignment operator")
+                    env[st.target.id] = ops[type(st.op)]()
+            elif isinstance(st, ast.Expr) and isinstance(st.value, ast.Call) and isinstance(st.value.func, ast.Attribute) \
+                    and st.value.func.attr in ("append", "extend") and isinstance(st.value.func.value, ast.Name) \
+                    and isinstance(env.get(st.value.func.value.id), list):
+                arg = self.eval(st.value.args[0], env, m)
+                if st.value.func.attr == "append":
+                    env[st.value.func.value.id].append(arg)
+                else:
+                    env[st.value.func.value.id].extend(list(arg))
+            elif isinstance(st, ast.Pass):
+                pass
             else:
                 raise Unsupported(f"statement {type(st).__name__} in table code")
         return None
